@@ -2120,6 +2120,11 @@ func (m *Machine) processQueue() Result {
 			// TODO optimize process only when ticks change (incl queue tick)
 			// TODO optimize: check sub ctxs also on canceled txs
 			m.processSubscriptions(t)
+		} else {
+			// canceled, but the queue tick has moved
+			for _, ch := range m.subs.ProcessWhenQueue(m.queueTick) {
+				closeSafe(ch)
+			}
 		}
 
 		t.CleanCache()
